@@ -1,2 +1,177 @@
-(** Placeholder until the proofs land. *)
-Require Import JF.Model.Time.
+(** * Props/C14.v — Time stamps keep full resolution and order (property C14).
+
+    Model: [JF.Model.Time] (binary64, CPython's divmod transcribed in [JF.Base.PyFloat]).
+    [value t = B2R (tq t) + B2R (tr t)] is the exact real value of a time stamp;
+    [normalised t]: finite integer-valued quotient, finite remainder in [0, 1);
+    [RN] is rounding to nearest-even in binary64, [ulp64] its unit in the last place. *)
+From Coq Require Import ZArith Bool Reals Lia Lra.
+From Flocq Require Import Core.Core IEEE754.BinarySingleNaN.
+Require Import JF.Base.F64 JF.Base.PyFloat JF.Model.Time JF.Proofs.F64Facts JF.Proofs.TimeProofs.
+Local Open Scope R_scope.
+
+(** ** All six comparisons agree with the exact order of quotient + remainder. *)
+Theorem cmp_exact : forall a b, normalised a -> normalised b ->
+  time_eq a b = Req_bool (value a) (value b) /\
+  time_ne a b = negb (Req_bool (value a) (value b)) /\
+  time_lt a b = Rlt_bool (value a) (value b) /\
+  time_gt a b = Rlt_bool (value b) (value a) /\
+  time_le a b = Rle_bool (value a) (value b) /\
+  time_ge a b = Rle_bool (value b) (value a).
+Proof. exact TimeProofs.cmp_exact. Qed.
+Print Assumptions cmp_exact.
+Example cmp_exact_nonvacuous :
+  normalised sample_a /\ normalised sample_b /\ time_lt sample_a sample_b = true /\
+  time_eq sample_a sample_b = false.
+Proof. repeat split; try apply sample_a_normalised; try apply sample_b_normalised; vm_compute; reflexivity. Qed.
+
+(** The comparison used by the C heap (heap.c) is the same function, hence exact as well. *)
+Theorem c_time_lt_exact : forall q1 r1 q2 r2,
+  normalised (mkTime q1 r1) -> normalised (mkTime q2 r2) ->
+  c_time_lt q1 r1 q2 r2 = Rlt_bool (B2R q1 + B2R r1) (B2R q2 + B2R r2).
+Proof. exact TimeProofs.c_time_lt_exact. Qed.
+Print Assumptions c_time_lt_exact.
+Example c_time_lt_exact_nonvacuous :
+  normalised (mkTime f_3 f_025) /\ normalised (mkTime f_3 f_075) /\ c_time_lt f_3 f_025 f_3 f_075 = true.
+Proof. repeat split; try apply sample_a_normalised; try apply sample_b_normalised; vm_compute; reflexivity. Qed.
+
+(** Exactly one of <, ==, > holds. *)
+Theorem cmp_total : forall a b, normalised a -> normalised b ->
+  (time_lt a b = true /\ time_eq a b = false /\ time_gt a b = false) \/
+  (time_lt a b = false /\ time_eq a b = true /\ time_gt a b = false) \/
+  (time_lt a b = false /\ time_eq a b = false /\ time_gt a b = true).
+Proof. exact TimeProofs.cmp_total. Qed.
+Print Assumptions cmp_total.
+Example cmp_total_nonvacuous : normalised sample_a /\ normalised sample_b /\ time_gt sample_b sample_a = true.
+Proof. repeat split; try apply sample_a_normalised; try apply sample_b_normalised; vm_compute; reflexivity. Qed.
+
+Theorem time_lt_trans : forall a b c, normalised a -> normalised b -> normalised c ->
+  time_lt a b = true -> time_lt b c = true -> time_lt a c = true.
+Proof. exact TimeProofs.time_lt_trans. Qed.
+Print Assumptions time_lt_trans.
+Example time_lt_trans_nonvacuous :
+  normalised sample_a /\ normalised sample_b /\ normalised (time_add sample_b f_05) /\
+  time_lt sample_a sample_b = true /\ time_lt sample_b (time_add sample_b f_05) = true.
+Proof.
+  destruct sample_add_hyps as (N & F & P & Q & H).
+  repeat split; try apply sample_a_normalised; try apply sample_b_normalised;
+    try (vm_compute; reflexivity); apply (add_value sample_b f_05 N F P Q H).
+Qed.
+
+Theorem time_le_trans : forall a b c, normalised a -> normalised b -> normalised c ->
+  time_le a b = true -> time_le b c = true -> time_le a c = true.
+Proof. exact TimeProofs.time_le_trans. Qed.
+Print Assumptions time_le_trans.
+Example time_le_trans_nonvacuous :
+  normalised sample_a /\ normalised sample_b /\ time_le sample_a sample_a = true /\ time_le sample_a sample_b = true.
+Proof. repeat split; try apply sample_a_normalised; try apply sample_b_normalised; vm_compute; reflexivity. Qed.
+
+Theorem time_le_antisym : forall a b, normalised a -> normalised b ->
+  time_le a b = true -> time_le b a = true -> time_eq a b = true.
+Proof. exact TimeProofs.time_le_antisym. Qed.
+Print Assumptions time_le_antisym.
+Example time_le_antisym_nonvacuous : normalised sample_a /\ time_le sample_a sample_a = true.
+Proof. split; [apply sample_a_normalised|vm_compute; reflexivity]. Qed.
+
+(** ** Infinity is larger than every finite time, equal only to itself, and absorbing. *)
+Theorem inf_greatest : forall t, normalised t ->
+  time_lt t time_inf = true /\ time_le t time_inf = true /\
+  time_gt time_inf t = true /\ time_ge time_inf t = true /\
+  time_eq t time_inf = false /\ time_ne t time_inf = true /\
+  time_gt t time_inf = false /\ time_ge t time_inf = false /\
+  time_lt time_inf t = false /\ time_le time_inf t = false /\
+  time_eq time_inf t = false.
+Proof. exact TimeProofs.inf_greatest. Qed.
+Print Assumptions inf_greatest.
+Example inf_greatest_nonvacuous : normalised sample_a /\ time_lt sample_a time_inf = true.
+Proof. split; [apply sample_a_normalised|vm_compute; reflexivity]. Qed.
+
+Theorem inf_self :
+  time_eq time_inf time_inf = true /\ time_lt time_inf time_inf = false /\
+  time_le time_inf time_inf = true /\ time_ge time_inf time_inf = true /\
+  time_gt time_inf time_inf = false /\ time_ne time_inf time_inf = false.
+Proof. exact TimeProofs.inf_self. Qed.
+Print Assumptions inf_self.
+Example inf_self_nonvacuous : feqb_bits (tq time_inf) finf = true.
+Proof. vm_compute; reflexivity. Qed.
+
+Theorem inf_absorbing : forall t, time_add t finf = time_inf.
+Proof. exact TimeProofs.inf_absorbing. Qed.
+Print Assumptions inf_absorbing.
+Example inf_absorbing_nonvacuous : feqb_bits (tr (time_add sample_a finf)) finf = true.
+Proof. vm_compute; reflexivity. Qed.
+
+(** ** Conversion from a non-negative float is exact. *)
+Theorem from_float_exact : forall x : f64, ffinite x = true -> 0 <= B2R x ->
+  value (from_float x) = B2R x /\ normalised (from_float x).
+Proof. exact TimeProofs.from_float_exact. Qed.
+Print Assumptions from_float_exact.
+Example from_float_exact_nonvacuous :
+  ffinite f_35 = true /\ 0 <= B2R f_35 /\ feqb_bits (tq (from_float f_35)) f_3 = true /\
+  feqb_bits (tr (from_float f_35)) f_05 = true.
+Proof. split; [vm_compute; reflexivity|]. split; [rewrite f_35_R; lra|]. split; vm_compute; reflexivity. Qed.
+
+(** Domain documentation: for a tiny negative input CPython's divmod returns remainder 1.0. *)
+Theorem from_float_negative_refuted :
+  exists x : f64, ffinite x = true /\ B2R x < 0 /\
+    feqb_bits (tr (from_float x)) fone = true /\ ~ normalised (from_float x).
+Proof. exact TimeProofs.from_float_negative_refuted. Qed.
+Print Assumptions from_float_negative_refuted.
+Example from_float_negative_witness :
+  feqb_bits (tq (from_float neg_tiny)) (of_bits 0xBFF0000000000000) = true /\
+  feqb_bits (tr (from_float neg_tiny)) fone = true.
+Proof. split; vm_compute; reflexivity. Qed.
+
+(** ** Addition of a non-negative displacement.
+    Side condition: the new quotient q + floor(RN(r + d)) does not exceed 2^53. *)
+Theorem add_value : forall (t : time) (d : f64),
+  normalised t -> ffinite d = true -> 0 <= B2R d -> 0 <= B2R (tq t) ->
+  B2R (tq t) + IZR (Zfloor (RN (B2R (tr t) + B2R d))) <= bpow radix2 53 ->
+  value (time_add t d) = B2R (tq t) + RN (B2R (tr t) + B2R d) /\ normalised (time_add t d).
+Proof. exact TimeProofs.add_value. Qed.
+Print Assumptions add_value.
+Example add_value_nonvacuous :
+  (normalised sample_b /\ ffinite f_05 = true /\ 0 <= B2R f_05 /\ 0 <= B2R (tq sample_b) /\
+   B2R (tq sample_b) + IZR (Zfloor (RN (B2R (tr sample_b) + B2R f_05))) <= bpow radix2 53) /\
+  feqb_bits (tq (time_add sample_b f_05)) (of_bits 0x4010000000000000) = true /\
+  feqb_bits (tr (time_add sample_b f_05)) f_025 = true.
+Proof. split; [exact sample_add_hyps|split; vm_compute; reflexivity]. Qed.
+
+(** The error is one rounding of the remainder sum — independent of the size of the quotient. *)
+Theorem add_error_one_rounding : forall (t : time) (d : f64),
+  normalised t -> ffinite d = true -> 0 <= B2R d -> 0 <= B2R (tq t) ->
+  B2R (tq t) + IZR (Zfloor (RN (B2R (tr t) + B2R d))) <= bpow radix2 53 ->
+  Rabs (value (time_add t d) - (value t + B2R d)) <= / 2 * ulp64 (B2R (tr t) + B2R d).
+Proof. exact TimeProofs.add_error_one_rounding. Qed.
+Print Assumptions add_error_one_rounding.
+Example add_error_one_rounding_nonvacuous :
+  normalised sample_b /\ ffinite f_05 = true /\ 0 <= B2R f_05 /\ 0 <= B2R (tq sample_b) /\
+  B2R (tq sample_b) + IZR (Zfloor (RN (B2R (tr sample_b) + B2R f_05))) <= bpow radix2 53.
+Proof. exact sample_add_hyps. Qed.
+
+Theorem add_monotone : forall (t : time) (d1 d2 : f64),
+  normalised t -> 0 <= B2R (tq t) ->
+  ffinite d1 = true -> ffinite d2 = true -> 0 <= B2R d1 -> B2R d1 <= B2R d2 ->
+  B2R (tq t) + IZR (Zfloor (RN (B2R (tr t) + B2R d2))) <= bpow radix2 53 ->
+  value (time_add t d1) <= value (time_add t d2).
+Proof. exact TimeProofs.add_monotone. Qed.
+Print Assumptions add_monotone.
+Example add_monotone_nonvacuous :
+  normalised sample_b /\ 0 <= B2R (tq sample_b) /\ ffinite f_025 = true /\ ffinite f_05 = true /\
+  0 <= B2R f_025 /\ B2R f_025 <= B2R f_05 /\
+  B2R (tq sample_b) + IZR (Zfloor (RN (B2R (tr sample_b) + B2R f_05))) <= bpow radix2 53.
+Proof.
+  destruct sample_add_hyps as (N & F & P & Q & H).
+  repeat split; try assumption; try apply N; try (vm_compute; reflexivity);
+    rewrite ?f_025_R, ?f_05_R; lra.
+Qed.
+
+Theorem add_never_decreases : forall (t : time) (d : f64),
+  normalised t -> ffinite d = true -> 0 <= B2R d -> 0 <= B2R (tq t) ->
+  B2R (tq t) + IZR (Zfloor (RN (B2R (tr t) + B2R d))) <= bpow radix2 53 ->
+  value t <= value (time_add t d).
+Proof. exact TimeProofs.add_never_decreases. Qed.
+Print Assumptions add_never_decreases.
+Example add_never_decreases_nonvacuous :
+  normalised sample_b /\ ffinite f_05 = true /\ 0 <= B2R f_05 /\ 0 <= B2R (tq sample_b) /\
+  B2R (tq sample_b) + IZR (Zfloor (RN (B2R (tr sample_b) + B2R f_05))) <= bpow radix2 53.
+Proof. exact sample_add_hyps. Qed.
